@@ -182,3 +182,151 @@ def corr_gen(ctx, out):
         else:
             if any(s["raised"] for s in steps) or any(o[0] == "updall" for o in rq["ops"]):
                 out["nontrivial"].add(("gen-ctl", len(out["nontrivial"])))
+
+
+# --------------------------------------------------------------------------
+# _NonLeafDefn.update: the translated statements vs the REAL class, on definitions that are updated AGAIN after their
+# inputs were re-partitioned (same / different number of groups) and / or changed value
+# --------------------------------------------------------------------------
+NL_DIMS = {"bin": ["b0", "b1"], "edge": ["e0", "e1", "e2"], "locus": ["l0", "l1"]}
+
+
+def nl_calc(*a):
+    acc = 1
+    for x in a:
+        acc = (acc * 31 + x + 7) % 1000003
+    return acc
+
+
+def _rand_partition(rng, keys, k=None):
+    """keys -> ordinal, every ordinal 0..k-1 used"""
+    k = k or rng.randint(1, len(keys))
+    ords = list(range(k)) + [rng.randrange(k) for _ in range(len(keys) - k)]
+    rng.shuffle(ords)
+    return dict(zip(keys, ords)), k
+
+
+def rand_nl_case(rng):
+    import itertools
+
+    dims = sorted(rng.sample(sorted(NL_DIMS), rng.randint(1, 3)))
+    args = []
+    for _ in range(rng.randint(1, 3)):
+        ad = tuple(sorted(rng.sample(dims, rng.randint(0, len(dims)))))
+        args.append({"dims": ad, "keys": list(itertools.product(*[NL_DIMS[d] for d in ad]))})
+    used = sorted({d for a in args for d in a["dims"]})  # what _NonLeafDefn.__init__ computes
+    scopes = list(itertools.product(*[NL_DIMS[d] for d in used]))
+    if len(scopes) > 2 and rng.random() < 0.3:
+        scopes = rng.sample(scopes, rng.randint(2, len(scopes)))
+    rng.shuffle(scopes)  # dict insertion order
+    rounds = []
+    prev_k = [None] * len(args)
+    for r in range(rng.randint(2, 4)):
+        rd = []
+        for i, a in enumerate(args):
+            same_k = prev_k[i] if (prev_k[i] and rng.random() < 0.6) else None
+            index, k = _rand_partition(rng, a["keys"], same_k)
+            prev_k[i] = k
+            rd.append({"index": index, "values": [None if rng.random() < 0.04 else rng.randint(0, 50) for _ in range(k)]})
+        rounds.append(rd)
+    stale = None if rng.random() < 0.5 else [[rng.randrange(3) for _ in args] for _ in scopes]
+    return {"dims": used, "args": args, "scopes": scopes, "rounds": rounds, "stale": stale}
+
+
+def _nl_classes():
+    from cogent3.recalculation.scope import _Defn, _NonLeafDefn
+
+    class Inp(_Defn):
+        def __init__(self, dims, name):
+            super().__init__()
+            self.valid_dimensions = tuple(dims)
+            self.name = name
+
+    class NL(_NonLeafDefn):
+        name = "nl"
+        recycling = False
+
+        def make_calc_function(self):
+            return nl_calc
+
+    return Inp, NL
+
+
+def _nl_build(c, Inp, NL):
+    inps = [Inp(a["dims"], f"in{i}") for i, a in enumerate(c["args"])]
+    d = NL(*inps)
+    for i, t in enumerate(c["scopes"]):
+        d.assignments[t] = None if c["stale"] is None else tuple(c["stale"][i])
+    return inps, d
+
+
+def _nl_set_inputs(inps, rd):
+    for inp, r in zip(inps, rd):
+        inp.index = dict(r["index"])
+        k = len(r["values"])
+        inp.uniq = [object() for _ in range(k)]
+        inp.values = list(r["values"])
+
+
+def _nl_snap(d, order):
+    from cogent3.recalculation.scope import Undefined
+
+    return {"asg": [list(d.assignments[t]) for t in order], "uniq": [list(x) for x in d.uniq],
+            "index": [d.index[t] for t in order],
+            "values": [None if isinstance(v, Undefined) else v for v in d.values]}
+
+
+def corr_nonleaf(ctx, out):
+    """every round: the inputs of ONE real _NonLeafDefn object get a new partition (often with the same number of groups)
+    and new values, update() is called on the same object; compared with (a) a NEWLY BUILT definition over the same
+    inputs (the property itself, at the level of one definition), (b) the translated update() run by the driver from
+    the mapping the object held before"""
+    rng = ctx.subrng("corr-nonleaf")
+    Inp, NL = _nl_classes()
+    reqs, reals, descr = [], [], []
+    for _ in range(ctx.budget(150, 2000)):
+        c = rand_nl_case(rng)
+        out["evaluations"] += 1
+        if tuple(c["dims"]) != _nl_build(c, Inp, NL)[1].valid_dimensions:
+            add_failure(out, "corr", "_NonLeafDefn.valid_dimensions is not the sorted union of the inputs' dimensions", c["dims"],
+                        c["dims"], None, confirmed=False)
+            continue
+        order = sorted(c["scopes"])
+        inps, d = _nl_build(c, Inp, NL)
+        prev = [[] if c["stale"] is None else list(d.assignments[t]) for t in order]
+        for r, rd in enumerate(c["rounds"]):
+            _nl_set_inputs(inps, rd)
+            try:
+                d.update()
+                got = _nl_snap(d, order)
+            except Exception as e:  # noqa: BLE001
+                got = {"err": type(e).__name__}
+            finps, fd = _nl_build(dict(c, stale=None), Inp, NL)
+            _nl_set_inputs(finps, rd)
+            fd.update()
+            fresh = _nl_snap(fd, order)
+            inp_descr = {"dims": c["dims"], "scopes": order, "inputs": [a["dims"] for a in c["args"]],
+                         "rounds": [[{"index": sorted(x["index"].items()), "values": x["values"]} for x in rr]
+                                    for rr in c["rounds"][: r + 1]]}
+            bump(out, "gennl_round", "first" if r == 0 else (
+                "same-number-of-groups" if all(len(x["values"]) == len(y["values"]) for x, y in zip(rd, c["rounds"][r - 1]))
+                else "other-number-of-groups"))
+            if got != fresh:
+                add_failure(out, "spec", "a _NonLeafDefn updated again after its inputs were re-partitioned differs from a "
+                            "newly built definition over the same inputs", inp_descr, fresh, got,
+                            sig="nl:update-vs-fresh-defn")
+                break
+            rq = {"n": len(order), "asg": prev,
+                  "args": [{"ord": [x["index"][tuple(t[c["dims"].index(dd)] for dd in a["dims"])] for t in order],
+                            "values": x["values"]} for a, x in zip(c["args"], rd)]}
+            reqs.append(("gennl", rq))
+            reals.append(got)
+            descr.append(inp_descr)
+            prev = got["asg"]
+    for (_, rq), real, dsc, m in zip(reqs, reals, descr, ctx.driver.batch(reqs)):
+        out["evaluations"] += 1
+        if m != real:
+            add_failure(out, "corr", "translated `_NonLeafDefn.update` differs from the python original", dict(dsc, req=rq),
+                        m, real, confirmed=False)
+        elif len(set(real["index"])) < len(real["index"]) and len(real["uniq"]) > 1:
+            out["nontrivial"].add(("gen-nl", len(out["nontrivial"])))
